@@ -255,8 +255,48 @@ theorem good_fields {c : Cfg} (h : good c = true) :
     c.allowanceSubDecrease = true ∧ c.transferFromArgs = true ∧ c.sharesPositive = true ∧ c.prog = refProg ∧
     c.wrappers = wrappersRef := by
   simp only [good, Bool.and_eq_true, beq_iff_eq] at h
-  obtain ⟨⟨⟨⟨⟨⟨⟨⟨⟨⟨⟨⟨⟨⟨⟨⟨a1, a2⟩, a3⟩, a4⟩, a5⟩, a6⟩, a7⟩, a8⟩, a9⟩, a10⟩, a11⟩, a12⟩, a13⟩, a14⟩, a15⟩, a16⟩, a17⟩ := h
+  obtain ⟨⟨⟨⟨⟨⟨⟨⟨⟨⟨⟨⟨⟨⟨⟨⟨⟨⟨a1, a2⟩, a3⟩, a4⟩, a5⟩, a6⟩, a7⟩, a8⟩, a9⟩, a10⟩, a11⟩, a12⟩, a13⟩, a14⟩, a15⟩, a16⟩, a17⟩, _⟩, _⟩ := h
   exact ⟨a1, a2, a3, a4, a5, a6, a7, a8, a9, a10, a11, a12, a13, a14, a15, a16, a17⟩
+
+/-- the regenerated native actions of the two Run methods are the reference ones -/
+theorem good_run {c : Cfg} (h : good c = true) : c.runTransfer = refRunTransfer ∧ c.runFrom = refRunFrom := by
+  simp only [good, Bool.and_eq_true, beq_iff_eq] at h
+  exact ⟨h.1.2, h.2⟩
+
+/-- `transferShares` through the regenerated native action of `TransferShares.Run` is the handler run for the caller -/
+theorem transferTx_eq {c : Cfg} (hg : good c = true) (s : State) (f t v x : Nat) :
+    s.transferTx c f t v x = s.transferOp c f t v x := by
+  obtain ⟨hr, -⟩ := good_run hg
+  unfold State.transferTx
+  rw [hr]
+  simp only [refRunTransfer, State.runR, State.execR, RunEnv.who, Bool.and_self, Bool.not_true, Bool.false_eq_true, if_false,
+    if_true]
+  by_cases h1 : (!(s.okAcc f && s.okAcc t && s.okVal v)) = true
+  · simp only [h1, if_true]; unfold State.transferOp; simp only [h1, if_true]
+  · by_cases h2 : (c.sharesPositive && x == 0) = true
+    · simp only [h1, h2, if_true]; unfold State.transferOp; simp only [h1, h2, if_true]
+    · simp only [h1, h2]
+      cases s.transferOp c f t v x <;> rfl
+
+/-- `transferFromShares` through the regenerated native action of `TransferFromShares.Run` is: the allowance is checked
+and decremented FIRST and UNCONDITIONALLY, then the handler runs for `args.From` -/
+theorem transferFromTx_eq {c : Cfg} (hg : good c = true) (s : State) (sp f t v x : Nat) :
+    s.transferFromTx c sp f t v x = s.transferFromRef c sp f t v x := by
+  obtain ⟨-, hr⟩ := good_run hg
+  unfold State.transferFromTx State.transferFromRef
+  rw [hr]
+  simp only [refRunFrom, State.runR, State.execR, RunEnv.who, Bool.and_self, Bool.not_true, Bool.false_eq_true, if_false,
+    if_true, State.decAllowance]
+  by_cases h1 : (!(s.okAcc sp && s.okAcc f && s.okAcc t && s.okVal v)) = true
+  · simp only [h1, if_true]
+  · by_cases h2 : (c.sharesPositive && x == 0) = true
+    · simp only [h1, h2, if_true]
+    · simp only [h1, h2]
+      by_cases h4 : s.allow v f sp < x
+      · cases hc : c.allowanceCheck <;> simp [h4]
+      · simp only [h4, decide_false, Bool.and_false, Bool.false_eq_true, if_false]
+        generalize State.transferOp c _ f t v x = r
+        cases r <;> rfl
 
 theorem cmpShares_LT (a b : Nat) : cmpShares "LT" a b = decide (a < b) := by
   simp [cmpShares]
